@@ -1,0 +1,20 @@
+//go:build verif
+
+// Contracts for the verification harness in /verif (comment-only; this file
+// contains no executable code and is compiled only with the verif tag).
+
+package staticfs
+
+// ---- C19: the directory is listed in one deterministic order, with the QIDs
+// that were recorded when each file was added (the same QIDs Walk + GetAttr
+// report, because qids.Mapper is stable: C20) ---------------------------------
+//@ declare dirKeysOf(names []string, d *dir) bool
+//@ declare dirSortedKeys(names []string, d *dir) bool
+//
+//@ func (*dir).Readdir
+//@   modifies *
+//@   at golang.org/x/exp/maps.Keys* assume dirKeysOf(ret0, d) && len(ret0) <= 1000000000
+//@   at golang.org/x/exp/slices.Sort* assume dirKeysOf(old(arg0), d) ==> dirSortedKeys(arg0, d)
+//@   at Readdir requires[C19] @pages-are-cut-from-the-sorted-key-list dirSortedKeys(arg2, d) && arg0 == offset && arg1 == count
+//@   at Readdir requires[C19] @qids-are-the-recorded-ones arg3 == d.a.qids
+//@   maypanic
